@@ -199,6 +199,7 @@ impl Check for ReproCheck {
     }
     fn gen(&self, seed: u64, tier: Tier) -> Run {
         let mut run = gen_sess_run("C20", seed, tier, true);
+        run.set("companion", 0); // replicas and noise threads already share the process
         let mut w = Rng::stream(seed, "transcript");
         // observation steps between the history's operations
         let mut ops: Vec<Op> = Vec::new();
